@@ -272,7 +272,26 @@ def totals_survivors(fx):
     # phase 1 adds each torrent's peers to total_num_peers; phase 2 may then drop the torrent because the access list forbids it.
     guarded = False
     adds = 0
-    tl = [l for l, n in b.debug_names.items() if n == "total_num_peers"]
+    # the accumulator is whatever local ends up as the SECOND component of the returned tuple (not its source name)
+    tl = []
+    for i, si, st in b.assigns():
+        if st["lhs"].get("l") == 0 and "p" not in st["lhs"] and st["rv"].get("agg", {}).get("tuple") and len(st["rv"].get("ops", [])) == 3:
+            src = st["rv"]["ops"][1]
+            l = (src.get("mv") or src.get("cp") or {}).get("l")
+            seen = set()
+            while l is not None and l not in seen:
+                seen.add(l)
+                defs = [s2 for _i, _si, s2 in b.assigns() if s2["lhs"].get("l") == l and "p" not in s2["lhs"]]
+                copies = [d for d in defs if "use" in d["rv"] and ("mv" in d["rv"]["use"] or "cp" in d["rv"]["use"])]
+                if len(defs) == 1 and copies:
+                    u = copies[0]["rv"]["use"]
+                    l = (u.get("mv") or u.get("cp") or {}).get("l")
+                else:
+                    break
+            if l is not None:
+                tl = [l]
+    if not tl:
+        tl = [l for l, n in b.debug_names.items() if n == "total_num_peers"]
     allows_edges = []
     for i, t in b.calls(r"AccessList::allows$"):
         sw = b.blocks[t["t"]]["term"] if t.get("t") is not None else None
